@@ -64,7 +64,7 @@ def propagate_function(f, ref_names):
     newnames = alpha.bound_names(f) - set(ref_names) - params
 
     def simple_src(e):
-        return isinstance(e, ast.Name) or (isinstance(e, ast.Attribute) and simple_src(e.value)) or (isinstance(e, ast.Subscript) and simple_src(e.value) and isinstance(e.slice, (ast.Constant, ast.Name)))
+        return isinstance(e, ast.Name) or (isinstance(e, ast.Attribute) and simple_src(e.value)) or (isinstance(e, ast.Subscript) and simple_src(e.value) and (isinstance(e.slice, (ast.Constant, ast.Name)) or (isinstance(e.slice, ast.UnaryOp) and isinstance(e.slice.operand, ast.Constant))))
     st = [f]
     while st:
         n = st.pop()
